@@ -1529,7 +1529,7 @@ static mut GLOG_V: [u32; 8] = [0; 8];
 static mut GLOG_N: usize = 0;
 const G_EOC: u32 = 0x0FFF_FFFF;
 
-fn stub_next_cluster<D>(_this: &FatVolume, _bc: &mut BlockCache<D>, cluster: ClusterId) -> Result<ClusterId, Error<D::Error>>
+pub(crate) fn stub_next_cluster<D>(_this: &FatVolume, _bc: &mut BlockCache<D>, cluster: ClusterId) -> Result<ClusterId, Error<D::Error>>
 where
     D: BlockDevice,
 {
@@ -1546,7 +1546,7 @@ where
         Ok(ClusterId(e))
     }
 }
-fn stub_update_fat<D>(_this: &mut FatVolume, _bc: &mut BlockCache<D>, cluster: ClusterId, new_value: ClusterId) -> Result<(), Error<D::Error>>
+pub(crate) fn stub_update_fat<D>(_this: &mut FatVolume, _bc: &mut BlockCache<D>, cluster: ClusterId, new_value: ClusterId) -> Result<(), Error<D::Error>>
 where
     D: BlockDevice,
 {
@@ -2025,3 +2025,86 @@ fn c17_dir_lfn_runs() {
     kani::cover!(matches!(want, Some((128, true))), "3-fragment run + short entry in slot 4... or 2+...");
     kani::cover!(shorts == 2 && matches!(want, Some((_, false))) && k == 1);
 }
+
+/// Abstract allocator over the ghost FAT (used together with stub_next_cluster by
+/// the extending-write harnesses): lowest free cluster of 2..=5, marked
+/// end-of-chain, previous tail linked; NotEnoughSpace iff none is free.
+pub(crate) fn stub_alloc_ghost<D>(_this: &mut FatVolume, _bc: &mut BlockCache<D>, prev: Option<ClusterId>, _zero: bool) -> Result<ClusterId, Error<D::Error>>
+where
+    D: BlockDevice,
+{
+    unsafe {
+        let i = GALLOC_N;
+        assert!(i < 4, "abstract allocator: more allocations than modelled");
+        GALLOC_N += 1;
+        GALLOC_PREV[i] = match prev {
+            Some(p) => p.0,
+            None => 0,
+        };
+        let mut c = 0u32;
+        let mut k = 6u32;
+        while k > 2 {
+            k -= 1;
+            if GFAT[k as usize] == 0 {
+                c = k;
+            }
+        }
+        if c == 0 {
+            return Err(Error::NotEnoughSpace);
+        }
+        GFAT[c as usize] = G_EOC;
+        if let Some(p) = prev {
+            assert!(p.0 >= 2 && p.0 < 6, "abstract allocator: previous cluster outside the volume");
+            GFAT[p.0 as usize] = c;
+        }
+        Ok(ClusterId(c))
+    }
+}
+pub(crate) fn ghost_fat_set(f: [u32; 8]) {
+    unsafe {
+        GFAT = f;
+        GALLOC_N = 0;
+    }
+}
+pub(crate) fn ghost_fat_get() -> [u32; 8] {
+    unsafe { GFAT }
+}
+pub(crate) fn ghost_alloc_prev(i: usize) -> u32 {
+    unsafe { GALLOC_PREV[i] }
+}
+pub(crate) fn ghost_alloc_calls() -> usize {
+    unsafe { GALLOC_N }
+}
+
+// ---- scripted directory-level stubs for VolumeManager harnesses (vk_fsop) ----
+pub(crate) static mut SCRIPT_FIND_CLUSTER: u32 = 0;
+pub(crate) static mut SCRIPT_DELETES: u32 = 0;
+pub(crate) fn stub_find_directory_entry<D>(_this: &FatVolume, _bc: &mut BlockCache<D>, _dir: &DirectoryInfo, name: &ShortFileName) -> Result<DirEntry, Error<D::Error>>
+where
+    D: BlockDevice,
+{
+    let c = unsafe { SCRIPT_FIND_CLUSTER };
+    let mut e = DirEntry::new(name.clone(), Attributes::create_from_fat(0x20), ClusterId(c), fixed_timestamp(), BlockIdx(G16A_ROOT), 0);
+    e.size = 700;
+    Ok(e)
+}
+pub(crate) fn stub_delete_directory_entry<D>(_this: &FatVolume, _bc: &mut BlockCache<D>, _dir: &DirectoryInfo, _name: &ShortFileName) -> Result<(), Error<D::Error>>
+where
+    D: BlockDevice,
+{
+    unsafe {
+        SCRIPT_DELETES += 1;
+    }
+    Ok(())
+}
+pub(crate) fn script_set(find_cluster: u32) {
+    unsafe {
+        SCRIPT_FIND_CLUSTER = find_cluster;
+        SCRIPT_DELETES = 0;
+        GLOG_N = 0;
+    }
+}
+pub(crate) fn script_deletes() -> u32 {
+    unsafe { SCRIPT_DELETES }
+}
+
